@@ -3,6 +3,7 @@ From Coq Require Import List Bool ZArith Lia.
 Import ListNotations.
 From Rosed Require Import Base.Res Base.ListX Base.Str Gem.Segment Model.Util Model.Options Model.Editor Model.Ops Check.Select
      Proofs.StrP Proofs.C10P Proofs.C10Q Inst.GoRt gen.GemLines Inst.GoSelLines.
+From Rosed Require Import Model.Table Proofs.C10R.
 Open Scope Z_scope.
 
 (* strings.Join after strings.Split is the identity for every non-empty separator *)
@@ -66,3 +67,16 @@ Theorem C10_lines_from_to_are_the_source : forall (C : Classifier) e p,
   go_LinesFrom e p = lines_from e p /\ go_LinesTo e p = lines_to e p.
 Proof. intros C e p. exact (conj (go_lines_from_eq e p) (go_lines_to_eq e p)). Qed.
 Print Assumptions C10_lines_from_to_are_the_source.
+
+(* Apply with any callback that returns normally: it is called on the lines of the decomposition
+   in order with indexes 0, 1, ..., the lists it returns are spliced in place of the lines
+   (spliced f 0 lines = f 0 l0 ++ f 1 l1 ++ ...), and the final terminator is kept exactly when
+   the text ended with the separator and trailing separators are on *)
+Theorem C10_apply_splices : forall (C : Classifier) (U : Upper) f opts e,
+  let o := with_defaults opts in
+  let sep := o_linesep o in
+  let lines := lines_sep (with_options e o) sep in
+  apply_opts (fun k l => Ok (f k l)) opts e =
+  Ok (with_text e (join sep (spliced f 0 lines ++ (if negb (o_notrailing o) && has_suffix (e_text e) sep then [[]] else [])))).
+Proof. intros C U. exact apply_opts_splice. Qed.
+Print Assumptions C10_apply_splices.
